@@ -45,6 +45,8 @@ func VC19Smoke() {
 const (
 	c19ProgA = "DB 1,2\nMOV AX,1\n"           // image: 01 02 b8 01 00
 	c19ProgB = "DB 9,9,9,9,9,9,9,9,9\nHLT\n" // a longer image: a stale tail would show
+	// an object-format source: its writer opens the output on its own
+	c19ProgC = "[FORMAT \"WCOFF\"]\n[BITS 32]\n[FILE \"c.nas\"]\nGLOBAL _f\n[SECTION .text]\n_f:\nMOV EAX,1\nRET\n"
 )
 
 // fileState reads a file for comparison: "absent", or "=" + contents.
@@ -64,14 +66,18 @@ func VC19Args() {
 	vrt.MkDir(dir)
 	paths := map[string]string{
 		"src-ok":       vrt.TempFile("ok.nas"),
+		"src-coff":     vrt.TempFile("obj.nas"),
 		"missing":      vrt.TempFile("missing.nas"),
 		"dir":          dir,
 		"out-new":      vrt.TempFile("new.bin"),
 		"out-existing": vrt.TempFile("old.bin"),
 		"out-nodir":    vrt.TempFile("nodir") + "/o.bin",
 	}
-	kinds := []string{"src-ok", "missing", "dir", "out-new", "out-existing", "out-nodir"}
+	kinds := []string{"src-ok", "missing", "dir", "out-new", "out-existing", "out-nodir", "src-coff"}
 	if err := os.WriteFile(paths["src-ok"], []byte(c19ProgA), 0o644); err != nil {
+		panic(err)
+	}
+	if err := os.WriteFile(paths["src-coff"], []byte(c19ProgC), 0o644); err != nil {
 		panic(err)
 	}
 	// the pre-existing output is itself a valid (longer) program
@@ -91,17 +97,18 @@ func VC19Args() {
 	}
 	// the in-process API's image of each program (the CLI must agree with it)
 	type refs struct {
-		a, b   []byte
-		oa, ob string
+		a, b, c    []byte
+		oa, ob, oc string
 	}
 	r := vrt.Once("c19refs", func() any {
 		var r refs
 		r.a, r.oa = Assemble(c19ProgA, "refA")
 		r.b, r.ob = Assemble(c19ProgB, "refB")
+		r.c, r.oc = Assemble(c19ProgC, "refC")
 		return r
 	}).(refs)
-	imgA, imgB := r.a, r.b
-	vrt.Assume(r.oa == "ok" && r.ob == "ok")
+	imgA, imgB, imgC := r.a, r.b, r.c
+	vrt.Assume(r.oa == "ok" && r.ob == "ok" && r.oc == "ok")
 	vrt.ResetDiag()
 
 	code, text := vrt.RunCLI(argv)
@@ -121,6 +128,8 @@ func VC19Args() {
 			img = imgA
 		case "out-existing":
 			img = imgB
+		case "src-coff":
+			img = imgC
 		}
 		if want == 0 {
 			switch ks[1] {
@@ -220,10 +229,14 @@ func c19Bytes(n int, prefix string) []byte {
 // line, to exactly the bytes of the comment-free form.
 func VC19Charset() {
 	n := 1 + vrt.Choose("n", vrt.Param("maxbytes"))
-	place := vrt.ChooseStr("place", []string{"mid", "eof", "own-line"})
+	place := vrt.ChooseStr("place", []string{"mid", "eof", "own-line", "far"})
 	cb := c19Bytes(n, "b")
 	var text []byte
 	switch place {
+	case "far":
+		// the first non-ASCII byte lies beyond the first kilobyte of the file
+		text = append([]byte("; "+strings.Repeat("-", 1100)+"\nMOV AX,1 ;"), cb...)
+		text = append(text, "\nDB 2\n"...)
 	case "mid":
 		text = append([]byte("MOV AX,1 ;"), cb...)
 		text = append(text, "\nDB 2\n"...)
